@@ -43,6 +43,8 @@ def cases(tier):
                     for h in (0.05, 0.3):
                         for nz in (0, 2):
                             yield {'dims': list(dims), 'H': hk, 'r': rk, 'h': h, 'nz': nz}
+                    # a REAL initial state (the flow is complex all the same)
+                    yield {'dims': list(dims), 'H': hk, 'r': rk, 'h': 0.3, 'nz': 0, 'x0': 'real'}
 
 
 class NormMonitor:
@@ -135,7 +137,7 @@ def run_case(case, seed):
     dims, kind, rk, h, nz = case['dims'], case['H'], case['r'], case['h'], case['nz']
     d = len(dims); N = int(np.prod(dims))
     op, H = make_H(rng, dims, kind)
-    x0t = tt_from(rand_cores(rng, dims, [1] * d, rk, True))
+    x0t = tt_from(rand_cores(rng, dims, [1] * d, rk, case.get('x0') != 'real'))
     x0t = (1.0 / x0t.norm()) * x0t
     x0t.ortho_right()
     x0 = vec(x0t)
